@@ -348,8 +348,18 @@ class C10(Property):
         rc, out, rs = vlib.go_run(res, cases, tag="c10free", timeout=900, env={"VERIF_FREE": "1"})
         fails = []
         if "DATA RACE" in out:
-            fails.append({"what": "data race reported by the race detector in the free-running MapReduce harness",
-                          "replay": out[-3000:]})
+            blocks = [b for b in out.split("==================") if "DATA RACE" in b]
+            # F13: finish() closes output while the reducer's guardedWriter.Write is between its
+            # done-check and its send (reported as close/send race; consequence: "send on closed channel")
+            f13 = [b for b in blocks if "runtime.closechan" in b and "runtime.chansend" in b and "guardedWriter" in b]
+            other = [b for b in blocks if b not in f13]
+            if f13:
+                fails.append({"what": "race detector: close(output) in finish() races with the send of guardedWriter.Write "
+                                      "(reducer's Write concurrent with cancel): send on closed channel",
+                              "replay": f13[0][-3000:], "known": "F13-reducer-write-races-with-close-output"})
+            if other:
+                fails.append({"what": "data race reported by the race detector in the free-running MapReduce harness",
+                              "replay": other[0][-3000:]})
         if rc != 0 and not fails:
             raise ExecError("c10 free run rc=%s: %s" % (rc, out[-1500:]))
         for c, r in zip(cases, rs):
